@@ -20,8 +20,15 @@ RULE = ("(a) metamorphic: Hypothesis-generated sessions run once with whole read
 ASSUMPTIONS = ["in-memory transport returns fragments of the packet in flight, never across a packet boundary", "read_timeout_s left at its 10 s default so that a few 1 ms empty reads cannot time out"]
 
 
-def frag_cases():
-    return sc.session(max_ops=4, with_frag=True)
+@st.composite
+def frag_cases(draw):
+    case = draw(sc.session(max_ops=4, with_frag=True))
+    if draw(st.sampled_from([False, False, True])):
+        # the handshake itself under fragmentation: signature and public-key paths, with the documented auth_timeout_s values (None = wait for ever)
+        mode = draw(st.sampled_from(["key", "pubkey"]))
+        case["device"]["auth"] = {"mode": mode, "accept": "k1"}
+        case["connect"] = {"keys": [{"tag": "k0"}, {"tag": "k1"}], "auth_timeout_s": draw(st.sampled_from([None, 0, 0.5, 10.0])), "callback": draw(st.booleans())}
+    return case
 
 
 def summarize(out):
